@@ -384,6 +384,8 @@ package geojson
 //@   props C09 C11
 //@   requires geometry.PolyInv(P) && Q != nil && Q.Exterior == P.Exterior && Q.Holes == P.Holes
 //@   ensures geometry.PolyInv(Q)
+//@   have SameHoles: forall h int :: geometry.polyHole(Q, h) == geometry.polyHole(P, h)
+//@   have SameExt: geometry.polyExt(Q) == geometry.polyExt(P) && geometry.polyNHoles(Q) == geometry.polyNHoles(P)
 //@ lemma polyInvEmpty(Q *geometry.Poly)
 //@   props C09 C11
 //@   requires Q != nil && Q.Exterior == nil && len(Q.Holes) == 0
